@@ -110,6 +110,10 @@ pub fn cache_case(r: &mut Rng, n_targets: usize, n_ops: usize, roll: bool) -> St
         if r.chance(1, 8) {
             silent[1 + r.below(3) as usize] = true;
         }
+        // now and then nobody answers at all: a lookup that ends with candidates but without responders
+        if !roll && r.chance(1, 8) {
+            silent = vec![true; n_peers];
+        }
         run_lookup(&mut s, kind, target, &silent);
         let snap = s.snap();
         match snap.cache.first() {
